@@ -37,6 +37,9 @@ CLAIMED = {
  "C02": ("bounds/size/divisor obligations over the decode fragment decided by linear integer arithmetic (Fourier–Motzkin) on SSA values, with pre/postconditions, loop-phi invariants and slab invariants inferred inductively (Houdini); grammar-rejection facts proved at every success exit; recursion-cycle depth-parameter analysis; entry-point argument comparison",
          "Decides that every index, slice, binary.BigEndian read, divisor and allocation size reachable from Decode/DecodeOwned is in range / bounded by the input length for every input (so no bounds-check panic and no allocation driven by a claimed length), that every success exit of the decoders has rejected zero length-byte count, truncated header/payload, non-multiple payloads, short localized strings, undefined codes and over-deep nesting, that the recursion is depth-bounded, and that the copying and owning entry points run the same decoder. Does not decide the decoded values or re-encode equality.",
          "§4 C02"),
+ "C03": ("bit-provenance (layout) evaluation of every header byte along the success paths of NewDataMessage, the re-stamping methods, the control-message factories and the serialisers, composed with the accessors; path-exact validation table of NewDataMessage; identity check of builder setters; acceptance tables of the decoders; value-flow of the built frame to the transport",
+         "Decides, bit for bit, that the ten header bytes built for data and control messages are the E37 layout and that every accessor reads back what the builder wrote; that re-stamping changes exactly bytes 0–1 / 6–9 and shares body and decode state; that ToBytes and the socket path emit BE32(10+bodyLen) ‖ header ‖ body with the length taken from the buffers written; that construction rejects exactly stream > 127, W on an even function and errored bodies (builders included); and the decoders' acceptance tables. Body bytes and dynamic equality are not decided.",
+         "§4 C03"),
  "C04": ("bounds obligations over the frame decoders and the receive path decided by linear integer arithmetic with inductively inferred contracts (including success-conditional postconditions such as 'a frame read without error is ≥ 10 bytes'); acceptance facts proved at every success exit with boundary-reachability queries; validate-before-allocate facts at the frame allocation; path-exact iteration table of readN (deadline policy, in-frame flag) and of recvLoop; reachability/who-may-call analysis of the lazy body decode",
          "Decides that no byte string or segmentation can make frame decoding or dispatch panic on a bounds check, that the three decode entry points and decodeOwnedFrame accept exactly 10 ≤ length ≤ cap / exact length / PType 0 / defined SType (boundaries included), that the receive path validates the length field before it sizes an allocation, that before every Read the deadline is now()+T8 iff a byte of the current frame has been read and the flag is shared across both reads of a frame, that a read error ends the loop without dispatch, and that the body is decoded lazily once under a sync.Once shared by all copies. Timing and kernel semantics are not decided.",
          "§4 C04"),
